@@ -13,7 +13,8 @@ CLAIMED = {
          "ONCE (pct_decode applied once, uninterpreted), parameter names and order are kept, the deserializer is built from exactly the "
          "decoded pairs, a segment that is not UTF-8 after decoding yields InvalidUtf8InPathParameter naming the first offending "
          "parameter and its raw segment, the iterator hands the raw segment on untouched, and the query string (empty when absent) is "
-         "given to serde_html_form as it is; JsonBody/UrlEncodedBody::extract are under contract in C14's unit. Everything the "
+         "given to serde_html_form as it is; the Content-Type gates of JsonBody/UrlEncodedBody accept exactly the documented media types "
+         "and otherwise return the documented error variant (uninterpreted mime model); the extract functions themselves are in C14's unit. Everything the "
          "statement says about VALUES (by-name matching, numbers/booleans/strings kept, wrong types rejected) lives in PathDeserializer "
          "and third-party serde code that no contract reaches: covered by a BOUNDED native stand-in only (20k/200k pseudo-random "
          "encoded path parameter sets through the real matchit router, 10k/100k query strings + forms + JSON bodies, malformed inputs), "
@@ -159,7 +160,7 @@ def main():
         }],
         "checks": checks,
         "not_applicable": [{"property_id": k, "reason": v} for k, v in sorted(NA.items()) if k not in CLAIMED],
-        "notes": "exit 0 = all registered obligations discharged; exit 1 = VIOLATION; exit 2 = UNDECIDED (lost anchor, unsupported construct, tool failure, vacuity, assumption allow-list mismatch) — never an alarm. Genuine defects repaired in /repo by unguarded `fix:` commits (recorded as `fixed` in known_findings.json, which suppresses nothing): 90b25f9, e446e6d, 49c30e7, 60035b8 (C11), b76f29c (C10), 176a896, ad9ee78 (C13, SQLite). One known finding (C13, SqliteSessionStore::create over a live record answers Ok without writing) is listed in known_findings.json and printed as KNOWN-FINDING. No hooks: /repo carries no verification-only code.",
+        "notes": "exit 0 = all registered obligations discharged; exit 1 = VIOLATION; exit 2 = UNDECIDED (lost anchor, unsupported construct, tool failure, vacuity, assumption allow-list mismatch) — never an alarm. Genuine defects repaired in /repo by unguarded `fix:` commits (recorded as `fixed` in known_findings.json, which suppresses nothing): 90b25f9, e446e6d, 49c30e7, 60035b8 (C11), b76f29c (C10), 176a896, ad9ee78 (C13, SQLite). Known findings, listed in known_findings.json and printed as KNOWN-FINDING lines: C13 (SqliteSessionStore::create over a live record answers Ok without writing), C15 (query strings and urlencoded forms decode invalid UTF-8 lossily instead of failing). No hooks: /repo carries no verification-only code.",
     }
     json.dump(m, open(os.path.join(V, "MANIFEST.json"), "w"), indent=1)
     print("claimed:", sorted(CLAIMED), "n/a:", len(m["not_applicable"]))
